@@ -38,7 +38,7 @@ const (
 
 type job struct {
 	Target  string   `json:"target"`
-	Kind    string   `json:"kind"` // "seeds" | "mut" | "keyed" | "enc" | "files"
+	Kind    string   `json:"kind"` // "seeds" | "mut" | "keyed" | "enc" | "plug" | "files"
 	From    int      `json:"from"`
 	To      int      `json:"to"`
 	Seed    int64    `json:"seed"`
@@ -70,6 +70,8 @@ type sumRec struct {
 	Evals       int64            `json:"evals"`
 	Classes     map[string]int64 `json:"classes"`
 	Skipped     map[string]int64 `json:"skipped"`
+	Tags        map[string]int64 `json:"tags,omitempty"` // coverage cells declared by generated cases that ran
+	Sessions    int64            `json:"sessions,omitempty"`
 	BOM         map[string]int64 `json:"bom"`     // inputs starting with a UTF-8/UTF-16 byte order mark, by mark and length parity
 	Hashes      string           `json:"hashes"`  // 8-byte prefixes of sha256(target‖input)
 	Repeats     map[string]int64 `json:"repeats"` // violation key -> further inputs with the same key
@@ -120,6 +122,8 @@ func (j *job) input(t *target, i int) []byte {
 		return keyedGrid(i)
 	case "enc":
 		return encInput(t, i)
+	case "plug":
+		return plugFamily()[i].encode()
 	case "files":
 		b, err := os.ReadFile(j.Files[i])
 		if err != nil {
@@ -391,6 +395,15 @@ func childMain(spec string) {
 					sum.BOM[bc]++
 				}
 				sum.ScryptCalls += int64(o.scrypt)
+				sum.Sessions += int64(o.sessions)
+				for _, tg := range o.tags {
+					if sum.Tags == nil {
+						sum.Tags = map[string]int64{}
+					}
+					if len(sum.Tags) < 5000 {
+						sum.Tags[tg]++
+					}
+				}
 				if o.skipped != "" {
 					sum.Skipped[o.skipped]++
 				}
